@@ -74,6 +74,7 @@ partial def feOf : SX → Option FE
   | .node "val" [a] => do pure (.val (← feOf a))
   | .node "dne" [o, .node p [], e] => do pure (.defNE (← feOf o) p (← feOf e))
   | .node "evd" [.node "V" vs, .node "D" ds, .node "S" ss] => do pure (.evalD (names vs) (← declsOf ds) (← fssOf ss))
+  | .node "evx" [.node "V" vs, .node "D" ds, .node "S" ss] => do pure (.evalD (names vs) (← declsOf ds) (← fssOf ss))
   | .node "evi" [.node "V" vs, .node "D" ds, .node "S" ss] => do pure (.evalI (names vs) (← declsOf ds) (← fssOf ss))
   | .node a [] => (pvOf a).map .lit
   | _ => none
